@@ -87,6 +87,10 @@ SPIF_TYPE(strclass) SPIF_STRCLASS_VAR(str) = &s_class;
 
 static const size_t buff_inc = 4096;
 
+/* Text of a string object for the C library: "" while the object is NULL or has no buffer yet. */
+#define SPIF_STR_TEXT(obj)  ((const char *) ((SPIF_STR_ISNULL(obj) || (SPIF_STR(obj)->s == (spif_charptr_t) NULL)) \
+                                             ? ("") : ((const char *) SPIF_STR(obj)->s)))
+
 spif_str_t
 spif_str_new(void)
 {
@@ -421,7 +425,7 @@ spif_str_casecmp(spif_str_t self, spif_str_t other)
     int c;
 
     SPIF_OBJ_COMP_CHECK_NULL(self, other);
-    c = strcasecmp((char *) SPIF_STR_STR(self), (char *) SPIF_STR_STR(other));
+    c = strcasecmp(SPIF_STR_TEXT(self), SPIF_STR_TEXT(other));
     return SPIF_CMP_FROM_INT(c);
 }
 
@@ -431,7 +435,7 @@ spif_str_casecmp_with_ptr(spif_str_t self, spif_charptr_t other)
     int c;
 
     SPIF_OBJ_COMP_CHECK_NULL(self, other);
-    c = strcasecmp((char *) SPIF_STR_STR(self), (char *) other);
+    c = strcasecmp(SPIF_STR_TEXT(self), (char *) other);
     return SPIF_CMP_FROM_INT(c);
 }
 
@@ -439,6 +443,7 @@ spif_bool_t
 spif_str_clear(spif_str_t self, spif_char_t c)
 {
     ASSERT_RVAL(!SPIF_STR_ISNULL(self), FALSE);
+    REQUIRE_RVAL(self->s != (spif_charptr_t) NULL, TRUE);
     memset(self->s, c, self->size);
     self->s[self->len] = 0;
     return TRUE;
@@ -450,7 +455,7 @@ spif_str_cmp(spif_str_t self, spif_str_t other)
     int c;
 
     SPIF_OBJ_COMP_CHECK_NULL(self, other);
-    c = strcmp((char *) SPIF_STR_STR(self), (char *) SPIF_STR_STR(other));
+    c = strcmp(SPIF_STR_TEXT(self), SPIF_STR_TEXT(other));
     return SPIF_CMP_FROM_INT(c);
 }
 
@@ -460,7 +465,7 @@ spif_str_cmp_with_ptr(spif_str_t self, spif_charptr_t other)
     int c;
 
     SPIF_OBJ_COMP_CHECK_NULL(self, other);
-    c = strcmp((char *) SPIF_STR_STR(self), (char *) other);
+    c = strcmp(SPIF_STR_TEXT(self), (char *) other);
     return SPIF_CMP_FROM_INT(c);
 }
 
@@ -470,6 +475,7 @@ spif_str_downcase(spif_str_t self)
     spif_charptr_t tmp;
 
     ASSERT_RVAL(!SPIF_STR_ISNULL(self), FALSE);
+    REQUIRE_RVAL(self->s != (spif_charptr_t) NULL, TRUE);
     for (tmp = self->s; *tmp; tmp++) {
         *tmp = tolower(*tmp);
     }
@@ -483,8 +489,10 @@ spif_str_find(spif_str_t self, spif_str_t other)
 
     ASSERT_RVAL(!SPIF_STR_ISNULL(self), ((spif_stridx_t) -1));
     REQUIRE_RVAL(!SPIF_STR_ISNULL(other), ((spif_stridx_t) -1));
-    tmp = strstr((const char *) SPIF_STR_STR(self),
-                 (const char *) SPIF_STR_STR(other));
+    if (self->s == (spif_charptr_t) NULL) {
+        return (spif_stridx_t) (self->len);
+    }
+    tmp = strstr((const char *) SPIF_STR_STR(self), SPIF_STR_TEXT(other));
     if (tmp) {
         return (spif_stridx_t) ((spif_long_t) tmp - (spif_long_t) (SPIF_STR_STR(self)));
     } else {
@@ -499,6 +507,9 @@ spif_str_find_from_ptr(spif_str_t self, spif_charptr_t other)
 
     ASSERT_RVAL(!SPIF_STR_ISNULL(self), ((spif_stridx_t) -1));
     REQUIRE_RVAL((other != (spif_charptr_t) NULL), ((spif_stridx_t) -1));
+    if (self->s == (spif_charptr_t) NULL) {
+        return (spif_stridx_t) (self->len);
+    }
     tmp = strstr((const char *) SPIF_STR_STR(self),
                  (const char *) other);
     if (tmp) {
@@ -514,6 +525,9 @@ spif_str_index(spif_str_t self, spif_char_t c)
     char *tmp;
 
     ASSERT_RVAL(!SPIF_STR_ISNULL(self), ((spif_stridx_t) -1));
+    if (self->s == (spif_charptr_t) NULL) {
+        return (spif_stridx_t) (self->len);
+    }
     tmp = index((const char *) SPIF_STR_STR(self), c);
     if (tmp) {
         return (spif_stridx_t) ((spif_long_t) tmp - (spif_long_t) (SPIF_STR_STR(self)));
@@ -528,7 +542,7 @@ spif_str_ncasecmp(spif_str_t self, spif_str_t other, spif_stridx_t cnt)
     int c;
 
     SPIF_OBJ_COMP_CHECK_NULL(self, other);
-    c = strncasecmp((char *) SPIF_STR_STR(self), (char *) SPIF_STR_STR(other), cnt);
+    c = strncasecmp(SPIF_STR_TEXT(self), SPIF_STR_TEXT(other), cnt);
     return SPIF_CMP_FROM_INT(c);
 }
 
@@ -538,7 +552,7 @@ spif_str_ncasecmp_with_ptr(spif_str_t self, spif_charptr_t other, spif_stridx_t 
     int c;
 
     SPIF_OBJ_COMP_CHECK_NULL(self, other);
-    c = strncasecmp((char *) SPIF_STR_STR(self), (char *) other, cnt);
+    c = strncasecmp(SPIF_STR_TEXT(self), (char *) other, cnt);
     return SPIF_CMP_FROM_INT(c);
 }
 
@@ -548,7 +562,7 @@ spif_str_ncmp(spif_str_t self, spif_str_t other, spif_stridx_t cnt)
     int c;
 
     SPIF_OBJ_COMP_CHECK_NULL(self, other);
-    c = strncmp((char *) SPIF_STR_STR(self), (char *) SPIF_STR_STR(other), cnt);
+    c = strncmp(SPIF_STR_TEXT(self), SPIF_STR_TEXT(other), cnt);
     return SPIF_CMP_FROM_INT(c);
 }
 
@@ -558,7 +572,7 @@ spif_str_ncmp_with_ptr(spif_str_t self, spif_charptr_t other, spif_stridx_t cnt)
     int c;
 
     SPIF_OBJ_COMP_CHECK_NULL(self, other);
-    c = strncmp((char *) SPIF_STR_STR(self), (char *) other, cnt);
+    c = strncmp(SPIF_STR_TEXT(self), (char *) other, cnt);
     return SPIF_CMP_FROM_INT(c);
 }
 
@@ -631,6 +645,9 @@ spif_str_rindex(spif_str_t self, spif_char_t c)
     char *tmp;
 
     ASSERT_RVAL(!SPIF_STR_ISNULL(self), ((spif_stridx_t) -1));
+    if (self->s == (spif_charptr_t) NULL) {
+        return (spif_stridx_t) (self->len);
+    }
     tmp = rindex((const char *) SPIF_STR_STR(self), c);
     if (tmp) {
         return (spif_stridx_t) ((spif_long_t) tmp - (spif_long_t) (SPIF_STR_STR(self)));
@@ -802,14 +819,14 @@ double
 spif_str_to_float(spif_str_t self)
 {
     ASSERT_RVAL(!SPIF_STR_ISNULL(self), (double) NAN);
-    return (double) (strtod((const char *)SPIF_STR_STR(self), (char **) NULL));
+    return (double) (strtod(SPIF_STR_TEXT(self), (char **) NULL));
 }
 
 size_t
 spif_str_to_num(spif_str_t self, int base)
 {
     ASSERT_RVAL(!SPIF_STR_ISNULL(self), ((size_t) -1));
-    return (size_t) (strtoul((const char *) SPIF_STR_STR(self), (char **) NULL, base));
+    return (size_t) (strtoul(SPIF_STR_TEXT(self), (char **) NULL, base));
 }
 
 spif_bool_t
@@ -839,6 +856,7 @@ spif_str_upcase(spif_str_t self)
     spif_charptr_t tmp;
 
     ASSERT_RVAL(!SPIF_STR_ISNULL(self), FALSE);
+    REQUIRE_RVAL(self->s != (spif_charptr_t) NULL, TRUE);
     for (tmp = self->s; *tmp; tmp++) {
         *tmp = toupper(*tmp);
     }
